@@ -55,7 +55,7 @@ def generate(rng, tier, idx):
             steps.append({'user': rng.choice('AB'), 'op': 'fit', 'src': rng.randrange(len(pool))})
     if not any(s['op'] == 'fit' for s in steps):
         steps.append({'user': 'A', 'op': 'fit', 'src': 0})
-    return {'world': w, 'pool': pool, 'steps': steps, 'memmap': rng.random() < 0.5,
+    return {'world': w, 'pool': pool, 'steps': steps, 'memmap': rng.random() < 0.5, 'remove_resolved': w['apdep'] and rng.random() < 0.3,
             'av_range': [0.0, round(rng.uniform(2, 30), 2)], 'drange': [1.0, rng.choice([1.0, 1.5, 2.5])],
             'theta_seed': rng.randrange(1 << 30), 'listing_seed': rng.randrange(1 << 30),
             'p1_seed': rng.randrange(1 << 30) if rng.random() < 0.6 else None,
@@ -131,7 +131,7 @@ def _execute(sc, sim, out):
     kw = pipe.fitter_kwargs(W, sc)
 
     def new_fitter(dd=d, nm=names, aa=ap):
-        return pipe.call(pipe.Fitter, nm, aa, dd, use_memmap=sc['memmap'], **pipe.fitter_kwargs(W, sc))
+        return pipe.call(pipe.Fitter, nm, aa, dd, use_memmap=sc['memmap'], remove_resolved=bool(sc.get('remove_resolved')), **pipe.fitter_kwargs(W, sc))
     r = new_fitter()
     if r[0] != 'ok':
         out.discarded = 'setup-fitter:' + pipe.exc_name(r)
